@@ -182,23 +182,24 @@ CLAIMED['C05'] = dict(
     text='PARTIAL. Lean 4 theorem: for every pairing oracle (hence every cutoff_distance_for_pairs, cutoff_intersection_for_pairs, max_passes, cache_size), report_repetition setting, '
          'threshold in [0,1], size and nesting, the ignore-order result is empty exactly when the pairing-free verdict holds (dicts key by key, lists/tuples by the set of item hashes - '
          'and equal multiplicities with report_repetition -, sets by member hashes, leaves by type and value); corollary: the emptiness verdict is knob independent. The only property '
-         'of the item hash used is HashSound (values the diff cannot tell apart hash equally); no injectivity. ' + _IOMODEL + 'Tied to the code by comparing the complete result of '
+         'of the item hash used is HashSound (values the diff cannot tell apart hash equally), which is proved for the DeepHash model for every hasher (C05_verdict_deephash); no injectivity. ' + _IOMODEL + 'Tied to the code by comparing the complete result of '
          'the real DeepDiff with the compiled model over shuffles, duplications, near-duplicates and edits at every depth x the knob grid. That the hash-level verdict coincides with '
          'nested set / multiset equality of the values (needs injectivity of the hash framing, C07) is decided on the implementation against an independent reference equality.',
     design='5/C05',
-    note='Trusted: Lean kernel; SHA-256 / DeepHash digests (HashSound is an assumption of the theorem, exercised by C12); pairing observed, not modelled. The semantic reading '
+    note='Trusted: Lean kernel; pairing observed, not modelled. The semantic reading '
          '(hash verdict = nested set equality) rests on evaluation. Domain: NoSpoof, NoNumAlias jointly.',
     technique='Lean 4 proof (mutual structural induction, fold invariants) + differential correspondence with observed pairing + independent reference equality')
 CLAIMED['C12'] = dict(
     text='PARTIAL. Lean 4 theorems: every normalisation option the two engines share is handed from DeepDiff to DeepHash (over the table regenerated from DEEPHASH_PARAM_KEYS and '
          '_get_deephash_params on every run); in the ignore-order model, for every pairing, the diff is empty exactly when at every list both sides have the same set of item hashes '
-         '(same multiplicities with report_repetition = not ignore_repetition), dictionaries agree key by key and leaves are equal; hence an empty diff implies equal hashes for any item '
-         'hash that respects that verdict. ' + _IOMODEL + 'The equivalence DeepHash(a)[a] == DeepHash(b)[b] <=> DeepDiff(a, b, ignore_order=True) == {} itself is decided on the '
+         '(same multiplicities with report_repetition = not ignore_repetition), dictionaries agree key by key and leaves are equal; that the DeepHash model respects this verdict '
+         '(HashSound) is proved for every hasher - lists, tuples, sets, dictionaries, leaves - on the domain NoNumAlias keys / distinct member hashes / canonical floats, so '
+         '"empty order-ignoring diff => equal DeepHash digests" is a theorem with no assumption about the hash. ' + _IOMODEL + 'The equivalence DeepHash(a)[a] == DeepHash(b)[b] <=> DeepDiff(a, b, ignore_order=True) == {} itself is decided on the '
          'implementation for each shared option (string case / type, numeric type, significant digits f and e, truncate_datetime, default_timezone, use_enum_value), pairs of options, '
          'both report_repetition settings, over structural pairs and pairs that differ only in what the option ignores; the direction equal digests => empty diff needs the injectivity of '
          'the hash framing (C07) and is not proved.',
     design='5/C12',
-    note='Trusted: Lean kernel; SHA-256; HashSound is a hypothesis of the model theorems. Options are not part of the ignore-order Lean model (observed only). '
+    note='Trusted: Lean kernel; SHA-256 (only as a parameter: the proved direction needs no injectivity). Options are not part of the ignore-order Lean model (observed only). '
          'Fixed in /repo: F28 (truncate_datetime was not forwarded). Known finding F18 (1 vs 1.0 through the shared hashes table).',
     technique='Lean 4 proof (table membership by decide; C05 induction) + evaluation of the equivalence under every shared option')
 CLAIMED['C17'] = dict(
